@@ -293,6 +293,9 @@ type assignment struct {
 func runE2E(r *ev.Run, cov ev.Coverage) {
 	vsys.Quiet()
 	vsys.FastRetries()
+	// only failure-free runs are judged; under CPU starvation keepalives can time
+	// out, so do not let "too many consecutive losses" turn a slow run into an error
+	exec.VerifSetMaxConsecutiveLost(false)
 	// 4-row vectors: every producer shard emits several batches
 	if err := flag.Set("bigslice-internal-default-chunk-rows", "4"); err != nil {
 		ev.Fatal("cannot set chunk rows: %v", err)
